@@ -5,4 +5,5 @@ PROPS = {
     'C19': {'modules': ['harness.h_c19']},
     'C14': {'modules': ['harness.h_c14']},
     'C15': {'modules': ['harness.h_c15']},
+    'C06': {'modules': ['harness.k_c06', 'harness.h_c06']},
 }
